@@ -138,7 +138,7 @@ def build_lib(defines=(), sanitize=True, opt="-O1"):
     return _lib_cache[key]
 
 
-LINK_LIBS = ["-lz", "-lbz2", "-llzma", "-lpcre", "-lm", "-lpthread"]
+LINK_LIBS = ["-ldl", "-lz", "-lbz2", "-llzma", "-lpcre", "-lm", "-lpthread"]
 
 
 def build_harness(name, sources, defines=(), sanitize=True, extra=(), cxx=False, opt="-O1"):
